@@ -58,7 +58,7 @@ META["C06"] = dict(
 META["C07"] = dict(
     design_ref="DESIGN.md section 5, C07",
     technique="Coq proofs by induction over action lists: recorded outcome = marks_failure(body) for any handle state and any body; independence of consecutive iterations; exact differential on one worker and oracle correspondence (extracted predicate) on whole runs in all trigger modes with per-id outcome plans",
-    text="Theorems C07_classification, C07_independent, C07_worker_outcomes: an iteration is recorded failed iff its body contains Fail/FailNow (Error, Fatal, failed assertion) or a panic with any value; the handle state left by earlier iterations never influences events or outcome of the next; the worker reports every iteration by its own outcome. Checked against the real code per iteration (exact) and per run (planned counts vs Result vs metrics).",
+    text="Theorems C07_classification, C07_independent, C07_worker_outcomes: an iteration is recorded failed iff its body contains Fail/FailNow (Error, Fatal, failed assertion) or a panic with any value; the handle state left by earlier iterations never influences events or outcome of the next; the worker reports every iteration by its own outcome; C07_concurrent_marks: failures reported by n >= 1 helper goroutines at the same time (each a read of tearingDown followed by an atomic store, stepped in any order) leave the handle marked failed and nothing else changed (stage c07conc drives that on the real T). Checked against the real code per iteration (exact) and per run (planned counts vs Result vs metrics).",
     note="Trusted: Coq kernel; recover semantics; scenario contract (FailNow from the iteration goroutine); extraction + driver; harness.",
 )
 
